@@ -11,6 +11,8 @@ executed by Python itself.
 """
 from __future__ import annotations
 
+import os
+
 import ast
 import builtins
 import importlib
@@ -23,7 +25,7 @@ import z3
 
 from . import sym
 
-PKG_DIR = Path("/repo/src/stationeers_pytrapic")
+PKG_DIR = Path(os.environ.get("VERIF_REPO", "/repo")) / "src" / "stationeers_pytrapic"
 F64 = z3.Float64()
 RNE = z3.RNE()
 RTZ = z3.RTZ()
